@@ -2,37 +2,59 @@
 
    dao.py, DataAccessObject.to_dao (l.380-438)            dao.py, DataAccessObject.from_dao (l.659-700)
      existing = state.get_existing(obj) -> return            if state.has(self): return state.get(self)
-     result = cls(); state.register(obj, result)             result = allocate_and_memoize (memo[id(self)] = result)
+     dao_obj = alternative mapping's create_instance(obj)    result = allocate_and_memoize (memo[id(self)] = result,
+     result = cls(); state.register(obj, result)                       keep_alive[id(self)] = self, in_progress[id(self)] = True)
      columns; for each relationship, in order:               scalar kwargs; for each relationship, in order:
        None | to_dao(value) | [to_dao(v) for v in value]       parse_single / parse_collection -> from_dao(v)
-     (fields of result are written)                          result.__init__ of kwargs; apply_circular_fixes (re-read memo)
+     (fields of result are written)                          _build_base_kwargs_for_alternative_parent (DAO below an alternatively
+                                                                 mapped DAO: a temporary parent DAO is converted and dropped)
+                                                             result.__init__ of kwargs; apply_circular_fixes (re-read memo)
                                                              if isinstance(result, AlternativeMapping):
                                                                  result = result.create_from_dao(); memo[id(self)] = result
+                                                             del in_progress[id(self)]
 
-   The walk is parameterised by what differs: the class map, whether the circular fix-up re-reads the memo
-   after initialisation ([p_refix]), and the late replacement of a mapping object by the object its
-   create_from_dao() builds ([p_late]; the memo entry is overwritten AFTER everything that looked it up ran).
-   Memo tables are association lists keyed by address (id()); the destination heap is written when the
-   object is initialised; fresh addresses come from the counter [nxt].  Recursion is on explicit fuel. *)
+   The walk is parameterised by what differs:
+   [p_obj]   class and scalars of the allocated result (to_dao: DAO class of the class or of its mapping class, scalars as user
+             code create_instance produced them; from_dao: the wrapped class / the mapping class, DAO columns);
+   [p_late]  Some (c', sc'): the allocated result is a MAPPING object; create_from_dao() builds a NEW object of class c' with
+             scalars sc' and the same references, and the memo entry is overwritten AFTER everything that looked it up ran;
+   [p_extra] addresses allocated and dropped (the mapping object and the parent object of the temporary parent conversion);
+   [p_refix] apply_circular_fixes re-reads every relationship value from the memo after initialisation;
+   [p_keep]  the state pins every memoised source object (ToDAOState.keep_alive; FromDAOState.keep_alive since 32013a0).
+   [prog] is FromDAOState.in_progress (for to_dao: the recursion stack); [bad] records that a memo hit handed out a mapping
+   object that was still in progress -- "a cycle first entered at an alternatively mapped object" (finding C04-a).
+   Memo tables are association lists keyed by address (id()); fresh addresses come from [nxt]; recursion is on fuel. *)
 From Coq Require Import List ZArith Bool Lia Arith PeanoNat.
 From Krrood Require Import Orm.ObjGraph.
 Import ListNotations.
 
 Record params := mkParams {
-  p_cmap : Z -> Z;             (* class of the allocated result for a source object of this class *)
-  p_late : Z -> option Z;      (* Some c: the allocated result is a mapping object, replaced at the end by a new object of class c *)
-  p_refix : bool;              (* apply_circular_fixes: re-read every relationship value from the memo after initialisation *)
-  p_keep : bool                (* the state pins every memoised source object (ToDAOState.keep_alive; FromDAOState.keep_alive
-                                  since repo commit 32013a0): its address cannot be recycled while the memo refers to it *)
+  p_obj : Z -> list Z -> Z * list Z;
+  p_late : Z -> list Z -> option (Z * list Z);
+  p_extra : Z -> nat;
+  p_refix : bool;
+  p_keep : bool
 }.
 
-Record st := mkSt { memo : list (addr * addr); dst : heap; nxt : addr; keep : list addr }.
-Definition st0 : st := mkSt [] empty_heap 0 [].
+Record st := mkSt { memo : list (addr * addr); dst : heap; nxt : addr; keep : list addr; prog : list addr; bad : bool }.
+Definition st0 : st := mkSt [] empty_heap 0 [] [] false.
 Definition mlook (a : addr) (s : st) : option addr := assoc a (memo s).
+
+Definition is_late (P : params) (o : obj) : bool :=
+  match p_late P (ocls o) (oscal o) with Some _ => true | None => false end.
+
+(* del in_progress[id] *)
+Fixpoint remove_addr (a : addr) (l : list addr) : list addr :=
+  match l with
+  | [] => []
+  | x :: t => if Nat.eqb x a then remove_addr a t else x :: remove_addr a t
+  end.
 
 Section Walk.
   Variable P : params.
   Variable src : heap.
+
+  Definition lateb (a : addr) : bool := match src a with Some o => is_late P o | None => false end.
 
   (* [to_dao(v) for v in value] / parse_collection: left to right, threading the state *)
   Fixpoint walk_list (rec : addr -> st -> option (addr * st)) (l : list addr) (s : st) : option (list addr * st) :=
@@ -82,25 +104,28 @@ Section Walk.
     | O => None
     | S f =>
         match mlook a s with
-        | Some d => Some (d, s)                                   (* memo hit: possibly an object still in progress *)
+        | Some d =>                                                (* memo hit: possibly an object still in progress *)
+            Some (d, mkSt (memo s) (dst s) (nxt s) (keep s) (prog s) (bad s || (memb a (prog s) && lateb a)))
         | None =>
             match src a with
             | None => None
             | Some o =>
                 let d := nxt s in                                  (* cls() / original_class.__new__ *)
-                let s1 := mkSt ((a, d) :: memo s) (dst s) (S d)            (* register BEFORE descending; keep_alive[id] = obj *)
-                               (if p_keep P then a :: keep s else keep s) in
+                let s1 := mkSt ((a, d) :: memo s) (dst s) (S d)    (* register BEFORE descending; keep_alive[id] = obj *)
+                               (if p_keep P then a :: keep s else keep s) (a :: prog s) (bad s) in
                 match walk_flds (walk f) (oflds o) s1 with
                 | None => None
                 | Some (fl, s2) =>
                     let fl' := if p_refix P then refix_flds s2 (oflds o) fl else fl in
-                    let c := p_cmap P (ocls o) in
-                    let s3 := mkSt (memo s2) (upd (dst s2) d (mkObj c (oscal o) fl')) (nxt s2) (keep s2) in
-                    match p_late P c with
-                    | None => Some (d, s3)
-                    | Some c' =>                                   (* create_from_dao(): a NEW object; memo updated last *)
-                        let d' := nxt s3 in
-                        Some (d', mkSt ((a, d') :: memo s3) (upd (dst s3) d' (mkObj c' (oscal o) fl')) (S d') (keep s3))
+                    let cs := p_obj P (ocls o) (oscal o) in
+                    let n3 := nxt s2 + p_extra P (ocls o) in       (* temporary parent conversion: allocated and dropped *)
+                    let pr := remove_addr a (prog s2) in
+                    match p_late P (ocls o) (oscal o) with
+                    | None => Some (d, mkSt (memo s2) (upd (dst s2) d (mkObj (fst cs) (snd cs) fl')) n3 (keep s2) pr (bad s2))
+                    | Some cs' =>                                  (* create_from_dao(): a NEW object; memo updated last *)
+                        Some (n3, mkSt ((a, n3) :: memo s2)
+                                       (upd (upd (dst s2) d (mkObj (fst cs) (snd cs) fl')) n3 (mkObj (fst cs') (snd cs') fl'))
+                                       (S n3) (keep s2) pr (bad s2))
                     end
                 end
             end
